@@ -182,7 +182,31 @@ def _unref(t):
     return t
 
 
-def digest_chain(bv, world, finalize_bi, names=None, transparent=TRANSPARENT):
+def _digest_chain_term(bv, world, t, names, transparent, xform):
+    """finalize(chain_update(chain_update(new(), a), b)) spelt as one expression"""
+    parts = []
+    x = _unref(t)
+    hty = None
+    for _ in range(64):
+        if x[0] != "call":
+            return None
+        cal = lib.norm(x[1])
+        if cal.endswith("Digest::chain_update") and len(x[2]) == 2:
+            parts.insert(0, render(bv, xform(x[2][1]), world, names, transparent=transparent))
+            x = _unref(x[2][0])
+            continue
+        if cal.endswith("Digest::new_with_prefix") and x[2]:
+            parts.insert(0, render(bv, xform(x[2][0]), world, names, transparent=transparent))
+            hty = type_arg(bv, x[3], 0) if x[3] is not None else None
+            break
+        if cal.endswith("Digest::new"):
+            hty = type_arg(bv, x[3], 0) if x[3] is not None else None
+            break
+        return None
+    return (hash_name(hty or "?"), parts)
+
+
+def digest_chain(bv, world, finalize_bi, names=None, transparent=TRANSPARENT, xform=lambda t: t):
     """For a `Digest::finalize(h)` call at block finalize_bi: the rendered sequence of data fed into h
     (new / new_with_prefix / update / chain_update, in CFG order on the straight-line path) and the
     hash type, or None when the hasher is updated on a branching path."""
@@ -208,11 +232,13 @@ def digest_chain(bv, world, finalize_bi, names=None, transparent=TRANSPARENT):
         return None
     start_bi = ds[0][0]
     st = ds[0][3]
+    if lib.norm(st.get("callee") or "").endswith("Digest::chain_update"):
+        return _digest_chain_term(bv, world, bv.trace_op(a0), names, transparent, xform)
     parts = []
     hty = type_arg(bv, start_bi, 0)
     cal = lib.norm(st.get("callee") or "")
     if cal.endswith("Digest::new_with_prefix"):
-        parts.append(render(bv, bv.trace_op(st["args"][0]), world, names, transparent=transparent))
+        parts.append(render(bv, xform(bv.trace_op(st["args"][0])), world, names, transparent=transparent))
     elif not cal.endswith("Digest::new"):
         return None
     # walk the straight line from new() to finalize
@@ -231,7 +257,7 @@ def digest_chain(bv, world, finalize_bi, names=None, transparent=TRANSPARENT):
                 recv = _unref(bv.trace_op(tt["args"][0]))
                 # the receiver must be our hasher
                 rl = (tt["args"][0].get("m") or tt["args"][0].get("c") or {})
-                parts.append(render(bv, bv.trace_op(tt["args"][1]), world, names, transparent=transparent))
+                parts.append(render(bv, xform(bv.trace_op(tt["args"][1])), world, names, transparent=transparent))
     if cur != finalize_bi:
         return None
     return (hash_name(hty or "?"), parts)
